@@ -3,8 +3,51 @@
 
 package bfe_tls
 
+import (
+	"crypto/aes"
+	"crypto/cipher"
+)
+
 // VerifRemovePadding exposes removePadding to the out-of-tree verification harness (build tag verif).
 func VerifRemovePadding(payload []byte) ([]byte, byte) { return removePadding(payload) }
 
 // VerifRemovePaddingSSL30 exposes removePaddingSSL30 (SSL 3.0: padding contents are not checked).
 func VerifRemovePaddingSSL30(payload []byte) ([]byte, byte) { return removePaddingSSL30(payload) }
+
+// VerifC43DecryptCBC runs the real halfConn.decrypt (the caller of removePadding/removePaddingSSL30)
+// on one AES-128-CBC + HMAC-SHA1 record of protocol version vers whose plaintext after decryption is
+// exactly plain (a multiple of 16 bytes, at least n+21): plain[:n] is the data, plain[n:n+20] is
+// overwritten with the record MAC of that data, the rest is the padding region as given by the caller.
+// It returns decrypt's verdict and the length of the application payload it leaves in the block.
+func VerifC43DecryptCBC(vers uint16, n int, plain []byte) (ok bool, outLen int) {
+	key := []byte("0123456789abcdef")
+	iv := []byte("fedcba9876543210")
+	mkey := []byte("0123456789abcdefghij")
+	if n < 0 || n+21 > len(plain) || len(plain)%16 != 0 {
+		return false, -1
+	}
+	p := append([]byte(nil), plain...)
+	hdr := []byte{byte(recordTypeApplicationData), byte(vers >> 8), byte(vers), byte(n >> 8), byte(n)}
+	var seq [8]byte
+	copy(p[n:n+20], macSHA1(vers, mkey).MAC(nil, seq[:], hdr, p[:n]))
+	blk, err := aes.NewCipher(key)
+	if err != nil {
+		return false, -1
+	}
+	var payload []byte
+	if vers >= VersionTLS11 {
+		eiv := []byte("explicit-iv-0123")
+		cipher.NewCBCEncrypter(blk, eiv).CryptBlocks(p, p)
+		payload = append(append([]byte(nil), eiv...), p...)
+	} else {
+		cipher.NewCBCEncrypter(blk, iv).CryptBlocks(p, p)
+		payload = p
+	}
+	b := &block{}
+	b.resize(recordHeaderLen + len(payload))
+	copy(b.data, []byte{byte(recordTypeApplicationData), byte(vers >> 8), byte(vers), byte(len(payload) >> 8), byte(len(payload))})
+	copy(b.data[recordHeaderLen:], payload)
+	hc := &halfConn{version: vers, cipher: cipherAES(key, iv, true), mac: macSHA1(vers, mkey)}
+	ok, prefix, _ := hc.decrypt(b)
+	return ok, len(b.data) - prefix
+}
